@@ -117,6 +117,10 @@ func c15Step(maxN int) {
 	switch sym.Choose("op", 6) {
 	case 0: // register
 		name := sym.Str("name", sym.Choose("name-len", 2))
+		if sym.Bool("well-known-name") {
+			// the directory's own name is a name like any other (it registers itself through this path)
+			name = "ServiceDirectory"
+		}
 		id, err := d.RegisterService(zzInfo(name, sym.U32("claimed-id")))
 		taken := name == ""
 		for _, e := range es {
